@@ -34,6 +34,11 @@ def check(ctx):
     # the same text under different flags (strip_comments, ignore_include): the flags are arguments of the call
     cm = "`define M(a) a /* c */ + 1\n`M(x /* d */)\n`M(y // e\n)\nz // f\n`include \"cfg.svh\"\n"
     jobs += [("pp:da", cm), ("pps:da", cm), ("ppi:da", cm), ("pps:db", cm)]
+    # legal deep nesting (macro chains of 41 and 60 levels, an include chain of 20) shared by all threads
+    def chain(n, leaf):
+        return "".join("`define L%d `L%d\n" % (j, j + 1) for j in range(n)) + "`define L%d %s\nx = `L0 ;\n" % (n, leaf)
+    jobs += [("pp", chain(41, "8'd1")), ("sv", "module m;\n" + chain(41, "8'd2").replace("x = `L0 ;", "wire [7:0] x = `L0 ;") + "endmodule\n"),
+             ("pps", chain(60, "leaf")), ("pp", chain(41, "8'd3"))]
     jobs += r.sample(pool, 6 if q else 60)
     for _ in range(3 if q else 30):
         g = ppgen.Gen(r, includes=False)
